@@ -220,6 +220,43 @@ fn find_block(bdl: &str, kind: Kind, name: &str) -> Option<(usize, usize, usize)
     None
 }
 
+/// the BDL text with attribute `attr` of block `"name" = KIND` set to the quoted value (added when absent)
+fn set_attr(bdl: &str, kind: &str, name: &str, attr: &str, value: &str) -> Option<String> {
+    let mut out = String::with_capacity(bdl.len() + 64);
+    let mut inside = false;
+    let mut done = false;
+    let mut seen = false;
+    for line in bdl.split_inclusive('\n') {
+        let t = line.trim();
+        if !inside && !done {
+            if let Some(rest) = t.strip_prefix(&format!("\"{}\"", name)) {
+                if rest.trim_start().strip_prefix('=').map_or(false, |k| k.trim() == kind) {
+                    inside = true;
+                }
+            }
+            out.push_str(line);
+        } else if inside {
+            let is_attr = t.strip_prefix(attr).map_or(false, |r| r.trim_start().starts_with('='));
+            if is_attr {
+                out.push_str(&format!("   {} = \"{}\"\n", attr, value));
+                seen = true;
+            } else if t == ".." {
+                if !seen {
+                    out.push_str(&format!("   {} = \"{}\"\n", attr, value));
+                }
+                out.push_str(line);
+                inside = false;
+                done = true;
+            } else {
+                out.push_str(line);
+            }
+        } else {
+            out.push_str(line);
+        }
+    }
+    if done { Some(out) } else { None }
+}
+
 thread_local! {
     static CATALOG: Vec<String> = hulc::ctehexml::load_lider_catalog().map(|db| {
         db.materials.keys().chain(db.wallcons.keys()).chain(db.wincons.keys()).chain(db.glasses.keys()).chain(db.frames.keys()).cloned().collect()
@@ -519,6 +556,59 @@ pub fn run(a: &Args) -> Batch {
             }
         }
     }
+    // references redirected to ANOTHER existing definition of the same kind (a space given the use conditions or
+    // the system conditions of some other space type, a window given another gap): still a valid project,
+    // so it must convert, and the converted model must be closed
+    for p in &projects {
+        let parsed = match crate::guarded(std::panic::AssertUnwindSafe(|| p.src.parse())) {
+            Ok(Ok(d)) => d,
+            _ => continue,
+        };
+        let bdl = p.src.bdl();
+        let b = match extract(&parsed.bdldata, &bdl) {
+            Some(b) => b,
+            None => continue,
+        };
+        let mut edits: Vec<(String, String)> = vec![];
+        let nsp = if a.thorough { 4 } else { 2 };
+        let sys_names: Vec<String> = b.sys.iter().map(|x| x.0.clone()).collect();
+        let cond_names: Vec<String> = b.conds.iter().map(|x| x.0.clone()).collect();
+        for sp in b.spaces.iter().take(nsp) {
+            for (attr, cur, defs) in [("SYSTEM-CONDITIONS", &sp.3, &sys_names), ("SPACE-CONDITIONS", &sp.2, &cond_names)] {
+                for d in defs.iter().filter(|d| *d != cur).take(if a.thorough { 4 } else { 2 }) {
+                    if let Some(t) = set_attr(&bdl, "SPACE", &sp.0, attr, d) {
+                        edits.push((format!("space {}: {} -> {}", sp.0, attr, d), t));
+                    }
+                }
+            }
+        }
+        for w in b.wins.iter().take(nsp) {
+            for g in b.gaps.iter().filter(|g| g.0 != w.2).take(1) {
+                if let Some(t) = set_attr(&bdl, "WINDOW", &w.0, "GAP", &g.0) {
+                    edits.push((format!("window {}: GAP -> {}", w.0, g.0), t));
+                }
+            }
+        }
+        for (what, text) in edits {
+            let src2 = p.src.with_bdl(&text);
+            let d2 = match crate::guarded(std::panic::AssertUnwindSafe(|| src2.parse())) {
+                Ok(Ok(d)) => d,
+                _ => continue,
+            };
+            let b2 = match extract(&d2.bdldata, &text) {
+                Some(b) => b,
+                None => continue,
+            };
+            let out2 = hproj::convert(&src2);
+            *stats.entry(format!("mutants_Redirected_{}", ["converted", "rejected", "crashed"][out2.class()])).or_default() += 1;
+            if let Outcome::Ok(m) = &out2 {
+                coq::reset_ids();
+                closure_cases.push((format!("{} [{}]", p.name, what), coq::model(m)));
+            }
+            cases.push(case_of(&b2, &out2, true, false, json!({"project": p.name, "mutation": format!("redirected reference: {}", what),
+                "outcome": format!("{:?}", out2).chars().take(160).collect::<String>(), "classes": if out2.class() == 2 { vec!["crash_on_broken_reference"] } else { vec![] }})));
+        }
+    }
     stats.insert("closure_models".into(), closure_cases.len());
     // closure of the converted models goes through the C14 saneness predicate `closed` of the Coq model
     for (name, mt) in closure_cases {
@@ -530,7 +620,7 @@ pub fn run(a: &Args) -> Batch {
         agree: "agree_C02x".into(),
         cases: cases.into_iter().map(|mut c| { if c.term.starts_with("(mkC02 ") { c.term = format!("(C02Doc {})", c.term); } else { c.term = c.term.replacen("(mkC02m ", "(C02Model ", 1); } c }).collect(),
         impl_findings: findings,
-        rule: "the 12 shipped .ctehexml projects (with the LIDER catalog) and the 56 legacy .cte files; for each, the name-level document extracted from the implementation's own parse, the conversion outcome, and every project obtained by renaming (header only) or removing one definition that another block refers to (materials, layers, constructions, gaps, glazings, frames, polygons, space / system conditions, yearly / weekly / daily schedules; spaces by rename), plus names shared across kinds (a GLASS-TYPE reference naming a frame; a frame renamed to its glazing's name, whose converted model must stay closed) and the window -> wall link (the first wall of the file removed, walls with windows removed or turned into UNDERGROUND-FLOOR blocks, with the document extracted again from the implementation's parse), sampled per project (5 per project in the quick tier, 60 in the thorough tier); converted models are checked for referential closure by the Coq predicate `closed`; non-trivial = a mutated project; distinct by content hash".into(),
+        rule: "the 12 shipped .ctehexml projects (with the LIDER catalog) and the 56 legacy .cte files; for each, the name-level document extracted from the implementation's own parse, the conversion outcome, and every project obtained by renaming (header only) or removing one definition that another block refers to (materials, layers, constructions, gaps, glazings, frames, polygons, space / system conditions, yearly / weekly / daily schedules; spaces by rename), plus references redirected to another existing definition of the same kind (use / system conditions of a space, gap of a window: valid projects whose converted model must stay closed), names shared across kinds (a GLASS-TYPE reference naming a frame; a frame renamed to its glazing's name, whose converted model must stay closed) and the window -> wall link (the first wall of the file removed, walls with windows removed or turned into UNDERGROUND-FLOOR blocks, with the document extracted again from the implementation's parse), sampled per project (5 per project in the quick tier, 60 in the thorough tier); converted models are checked for referential closure by the Coq predicate `closed`; non-trivial = a mutated project; distinct by content hash".into(),
         stats: json!(stats),
     }
 }
